@@ -180,6 +180,10 @@ func faultsFor(fc *FieldCase) []dataFault {
 		// (a pre-filled value satisfies "required" without a setting)
 		out = append(out, dataFault{path: p, remove: true, names: p, kind: "required setting removed"})
 	}
+	if fc.F.Required && fc.Pre && fc.PreVar == 1 {
+		// ... unless it is the zero value: 0, "", also behind a pointer
+		out = append(out, dataFault{path: p, remove: true, names: p, kind: "required setting removed, the default is the zero value"})
+	}
 	return out
 }
 
